@@ -79,7 +79,9 @@ Record state := State {
                                         fix: frames written after DB.Close are dropped *)
   st_chans : list (N * ckind);
   st_cap : nat;                      (* relay inlet capacity (BufferSize) *)
-  st_writers : list (N * writer);    (* open writers *)
+  st_writers : list (N * writer);    (* writers, closed ones included (ids are never reused) *)
+  st_bg : list (N * list (list N));  (* writers driven by a background goroutine: the frames
+                                        (key lists) it still has to write, in order *)
   st_npos : N;
   st_fifo : list frame;              (* relay inlet, head first *)
   st_strs : list (N * streamer);     (* streamers, in connection order *)
@@ -89,7 +91,7 @@ Record state := State {
 Global Instance state_eq_dec : EqDecision state. Proof. solve_decision. Defined.
 
 Definition init_gen (unowned deadinlet : bool) (chans : list (N * ckind)) (cap : nat) : state :=
-  State unowned deadinlet chans cap [] 0 [] [] false [].
+  State unowned deadinlet chans cap [] [] 0 [] [] false [].
 Definition init := init_gen false false.
 
 (* boolean equality, cheap under vm_compute: [andb]/[existsb] evaluate both arguments under
@@ -128,6 +130,7 @@ Definition state_eqb (a b : state) : bool :=
   list_eqb (fun x y => (x.1 =? y.1) &&& streamer_eqb x.2 y.2) (st_strs a) (st_strs b) &&&
   list_eqb frame_eqb (st_fifo a) (st_fifo b) &&& Bool.eqb (st_closed a) (st_closed b) &&&
   list_eqb (fun x y => (x.1 =? y.1) &&& writer_eqb x.2 y.2) (st_writers a) (st_writers b) &&&
+  list_eqb (fun x y => (x.1 =? y.1) &&& list_eqb keys_eqb x.2 y.2) (st_bg a) (st_bg b) &&&
   (st_npos a =? st_npos b) &&& (st_cap a =? st_cap b)%nat &&& Bool.eqb (st_unowned a) (st_unowned b) &&& Bool.eqb (st_deadinlet a) (st_deadinlet b) &&&
   list_eqb (fun x y => (x.1 =? y.1) &&& ckind_eqb x.2 y.2) (st_chans a) (st_chans b) &&&
   list_eqb frame_eqb (st_hist a) (st_hist b).
@@ -166,11 +169,16 @@ Fixpoint nodupN (l : list N) : bool :=
 
 (* ---- record updates *)
 Definition set_writers (st : state) (ws : list (N * writer)) : state :=
-  State (st_unowned st) (st_deadinlet st) (st_chans st) (st_cap st) ws (st_npos st) (st_fifo st) (st_strs st) (st_closed st) (st_hist st).
+  State (st_unowned st) (st_deadinlet st) (st_chans st) (st_cap st) ws (st_bg st) (st_npos st) (st_fifo st) (st_strs st) (st_closed st) (st_hist st).
 Definition set_strs (st : state) (ss : list (N * streamer)) : state :=
-  State (st_unowned st) (st_deadinlet st) (st_chans st) (st_cap st) (st_writers st) (st_npos st) (st_fifo st) ss (st_closed st) (st_hist st).
+  State (st_unowned st) (st_deadinlet st) (st_chans st) (st_cap st) (st_writers st) (st_bg st) (st_npos st) (st_fifo st) ss (st_closed st) (st_hist st).
 Definition set_fifo (st : state) (q : list frame) : state :=
-  State (st_unowned st) (st_deadinlet st) (st_chans st) (st_cap st) (st_writers st) (st_npos st) q (st_strs st) (st_closed st) (st_hist st).
+  State (st_unowned st) (st_deadinlet st) (st_chans st) (st_cap st) (st_writers st) (st_bg st) (st_npos st) q (st_strs st) (st_closed st) (st_hist st).
+Definition set_bg (st : state) (bg : list (N * list (list N))) : state :=
+  State (st_unowned st) (st_deadinlet st) (st_chans st) (st_cap st) (st_writers st) bg (st_npos st) (st_fifo st)
+        (st_strs st) (st_closed st) (st_hist st).
+Definition bg_active (st : state) (w : N) : bool :=
+  match alookup w (st_bg st) with Some _ => true | None => false end.
 Definition upd_str (st : state) (s : N) (f : streamer -> streamer) : state :=
   set_strs st (aupdate s f (st_strs st)).
 
@@ -247,7 +255,9 @@ Inductive op :=
 | Pause (s : N)
 | Resume (s : N)
 | Sync
-| CloseDB.
+| CloseDB
+| BgWrites (w : N) (kss : list (list N))   (* a goroutine starts writing these frames with w *)
+| Join (w : N).                             (* wait until it is done *)
 Global Instance op_eq_dec : EqDecision op. Proof. solve_decision. Defined.
 
 (* the driver waits inside close_streamer until the streamer's outlet is closed *)
@@ -331,38 +341,42 @@ Fixpoint deliver_prefix (f : frame) (ss : list (N * streamer)) : list (list (N *
        else map (cons (k, s)) (deliver_prefix f r))
   end.
 
+(* streamWriter.write for one frame of writer w (record wr) *)
+Definition do_write (st : state) (w : N) (wr : writer) (ks : list N) (bad : bool) : list state :=
+  if bad_hits st wr ks bad || negb (valid_frame st wr ks) then [close_writer st w] else
+  let seq := w_seq wr + 1 in
+  let st1 := set_writers st (aupdate w (fun wr => Writer (w_open wr) (w_mode wr) (w_chans wr) (w_pos wr) seq)
+                                     (st_writers st)) in
+  if streams (w_mode wr) && negb (st_closed st && negb (st_deadinlet st)) then
+    (* open DB: [st_cap] frames in the inlet buffer plus the one the relay goroutine
+       holds while it sends it to the streamers; closed DB: the buffer only *)
+    if (if st_closed st then (length (st_fifo st) <? st_cap st)%nat
+        else (length (st_fifo st) <=? st_cap st)%nat) then
+      let f := Frame w seq (relayed_keys st w wr ks) ks (unauth_keys st w wr ks) in
+      [State (st_unowned st1) (st_deadinlet st1) (st_chans st1) (st_cap st1) (st_writers st1) (st_bg st1) (st_npos st1) (st_fifo st1 ++ [f])
+             (st_strs st1) (st_closed st1) (st_hist st1 ++ [f])]
+    else []      (* the send into the full inlet blocks *)
+  else [st1].
+
 Definition vstep (st : state) (o : op) : list state :=
   if driver_blocked st then [] else
   match o with
   | OpenW w m chans auths =>
       match alookup w (st_writers st), open_writer_ok st w chans auths with
       | None, Some ca =>
-          [State (st_unowned st) (st_deadinlet st) (st_chans st) (st_cap st) (st_writers st ++ [(w, Writer true m ca (st_npos st) 0)])
+          [State (st_unowned st) (st_deadinlet st) (st_chans st) (st_cap st) (st_writers st ++ [(w, Writer true m ca (st_npos st) 0)]) (st_bg st)
                  (st_npos st + 1) (st_fifo st) (st_strs st) (st_closed st) (st_hist st)]
       | _, _ => [st]
       end
-  | CloseW w => [close_writer st w]
+  | CloseW w => if bg_active st w then [st] else [close_writer st w]
   | SetAuth w a =>
+      if bg_active st w then [st] else
       [set_writers st (aupdate w (fun wr => Writer (w_open wr) (w_mode wr) (map (fun ca => (ca.1, a)) (w_chans wr))
                                                    (w_pos wr) (w_seq wr)) (st_writers st))]
   | Write w ks bad =>
       match open_writer_of st w with
       | None => [st]
-      | Some wr =>
-          if bad_hits st wr ks bad || negb (valid_frame st wr ks) then [close_writer st w] else
-          let seq := w_seq wr + 1 in
-          let st1 := set_writers st (aupdate w (fun wr => Writer (w_open wr) (w_mode wr) (w_chans wr) (w_pos wr) seq)
-                                             (st_writers st)) in
-          if streams (w_mode wr) && negb (st_closed st && negb (st_deadinlet st)) then
-            (* open DB: [st_cap] frames in the inlet buffer plus the one the relay goroutine
-               holds while it sends it to the streamers; closed DB: the buffer only *)
-            if (if st_closed st then (length (st_fifo st) <? st_cap st)%nat
-                else (length (st_fifo st) <=? st_cap st)%nat) then
-              let f := Frame w seq (relayed_keys st w wr ks) ks (unauth_keys st w wr ks) in
-              [State (st_unowned st1) (st_deadinlet st1) (st_chans st1) (st_cap st1) (st_writers st1) (st_npos st1) (st_fifo st1 ++ [f])
-                     (st_strs st1) (st_closed st1) (st_hist st1 ++ [f])]
-            else []      (* the send into the full inlet blocks *)
-          else [st1]
+      | Some wr => if bg_active st w then [st] else do_write st w wr ks bad
       end
   | OpenS s ks =>
       if st_closed st then [st] else
@@ -390,13 +404,24 @@ Definition vstep (st : state) (o : op) : list state :=
   | Sync => if st_closed st then [st] else if sync_ready st then [st] else []
   | CloseDB =>
       if st_closed st then [st] else
-      let stc := State (st_unowned st) (st_deadinlet st) (st_chans st) (st_cap st) (st_writers st) (st_npos st) (st_fifo st) (st_strs st)
+      let stc := State (st_unowned st) (st_deadinlet st) (st_chans st) (st_cap st) (st_writers st) (st_bg st) (st_npos st) (st_fifo st) (st_strs st)
                        true (st_hist st) in
       (if (length (st_fifo st) <=? st_cap st)%nat then [stc] else []) ++
              match st_fifo st with
              | [] => []
              | f :: q => map (fun ss => set_fifo (set_strs stc ss) q) (deliver_prefix f (st_strs st))
              end
+  | BgWrites w kss =>
+      match open_writer_of st w with
+      | None => [st]
+      | Some _ => if bg_active st w then [st] else [set_bg st (st_bg st ++ [(w, kss)])]
+      end
+  | Join w =>
+      match alookup w (st_bg st) with
+      | None => [st]
+      | Some [] => [set_bg st (aremove w (st_bg st))]
+      | Some (_ :: _) => []        (* the goroutine has not finished *)
+      end
   end.
 
 (* hidden steps: relay delivers the head frame; a streamer applies a queued request;
@@ -428,7 +453,19 @@ Definition disc_succs (st : state) : list state :=
                       | Some x => if can_disc st x then [upd_str st ss.1 disconnect] else []
                       | None => []
                       end) (st_strs st).
-Definition hsucc (st : state) : list state := deliver_succs st ++ apply_succs st ++ disc_succs st.
+(* the background goroutine of writer w performs its next Write (nothing if w is closed) *)
+Definition bg_succs (st : state) : list state :=
+  flat_map (fun e => match alookup e.1 (st_bg st) with
+                     | Some (ks :: rest) =>
+                         let st0 := set_bg st (aupdate e.1 (fun _ => rest) (st_bg st)) in
+                         match open_writer_of st e.1 with
+                         | None => [st0]
+                         | Some wr => do_write st0 e.1 wr ks false
+                         end
+                     | _ => []
+                     end) (st_bg st).
+Definition hsucc (st : state) : list state :=
+  deliver_succs st ++ apply_succs st ++ disc_succs st ++ bg_succs st.
 
 (* the LTS: a step is a hidden step or a visible step labelled by a driver operation *)
 Inductive label := Tau | Vis (o : op).
@@ -469,7 +506,7 @@ Definition compat (obs : observation) (st : state) : bool :=
 
 (* hidden-step measure: bounds the depth of hidden-step sequences *)
 Definition measure (st : state) : nat :=
-  (length (st_fifo st) +
+  (length (st_fifo st) + 2 * list_sum (map (fun e => length e.2) (st_bg st)) +
    list_sum (map (fun ss => length (s_pend ss.2) + (if s_conn ss.2 then 1 else 0)) (st_strs st)))%nat.
 
 (* breadth-first closure under compatible hidden steps: [seen] includes [frontier], and
@@ -511,11 +548,14 @@ Definition op_outcome (st : state) (o : op) : outcome :=
       | None => match open_writer_ok st w chans auths with Some _ => OOk false | None => OErr end
       end
   | CloseW w | SetAuth w _ =>
-      match open_writer_of st w with Some _ => OOk false | None => OSkip end
+      match open_writer_of st w with Some _ => if bg_active st w then OSkip else OOk false | None => OSkip end
+  | BgWrites w _ =>
+      match open_writer_of st w with Some _ => if bg_active st w then OSkip else OOk false | None => OSkip end
+  | Join w => if bg_active st w then OOk false else OSkip
   | Write w ks bad =>
       match open_writer_of st w with
       | None => OSkip
-      | Some wr => if bad_hits st wr ks bad || negb (valid_frame st wr ks) then OErr
+      | Some wr => if bg_active st w then OSkip else if bad_hits st wr ks bad || negb (valid_frame st wr ks) then OErr
                    else OOk (match unauth_keys st w wr ks with [] => true | _ => false end)
       end
   | OpenS s _ =>
